@@ -7,6 +7,16 @@ ROOT = os.path.dirname(os.path.dirname(os.path.abspath(__file__)))
 
 # id -> (level category, technique, level text, level note, design section)
 CHECKS = {
+ "C09": ("exploration",
+         "reference-model monitor over directory snapshots logged by the inspection command itself + execution-order log + hook events",
+         "Seeded final-product directories (added/removed/modified/line-ending-only differences), 0-3 inspections with command behaviours from a catalogue and rule lists from a vocabulary, three entry-point variants, both wrappers, line normalisation on/off, step links with different hash-algorithm sets; the reference rule interpreter runs over what the command really saw before/after plus the step links; failing/unstartable commands, order, exactly-once and 'only after the step checks' are read off the command's own log and the inspection_exec events.",
+         "Trusted: reference rule interpreter (C03's), vhelper's snapshots. Empty run lists are not generated.",
+         "C09"),
+ "C10": ("exploration",
+         "history checker against fresh-copy baselines + before/after serialisation of the caller's objects, repeated for map order",
+         "All histories of up to 3 (4) verifications with equal/different parameter dictionaries on one in-memory layout object, on chains biased to the anchors (mixed key/certificate steps, unsorted constraint lists, substitution markers, unclean artifact paths, sublayout); outcomes must equal those of freshly loaded copies (each baseline repeated R times: determinism) and the caller's layout/keys/dictionary must serialise identically after every call.",
+         "Trusted: nothing beyond the harness; the internal iteration order is sampled, not enumerated (R=24/64 per case).",
+         "C10"),
  "C02": ("exploration",
          "ground truth by construction over enumerated link-file populations + result-map inspection, repeated for map order",
          "InTotoVerify and VerifyLinkSignatureThesholds run on every multiset (size<=2 quick / <=3 thorough, plus random larger ones) over a catalogue of 21 labelled link kinds per step, for thresholds 1-3, three authorization modes and both wrappers; the generator knows how many distinct authorized functionaries legitimately count, so both directions of the property are decided; every mixed population is verified 8 times, half of the runs with a foreign intermediate passed by the caller.",
